@@ -10,6 +10,7 @@ CONSTANTS
   Emit,         \* "none" | "states" | "classes" : which behaviours are printed for replay
   RootViaSet,   \* subset of RootVias used for root edits
   WithBarrierOnly, WithFinalize, WithDrop, WithMany, WithWeak, WithUnlink, WithDebtCalls, WithLeak,
+  Prelude,      \* name of a scripted prefix the exploration starts after ("" = the empty arena)
   DFaultAts,    \* set of destructor-run indices at which a destructor panic may be injected ({} = none)
   FaultAts      \* set of trace-call indices at which a trace panic may be injected ({} = no faults)
 
@@ -24,7 +25,54 @@ vw == [h EXCEPT !.mt = 0, !.pc = 0]
 \* different classes (say a forward barrier with and without a holder) must both be continued
 vwp == <<vw, pcl>>
 
-Init == h = EmptyHeap /\ hist = <<>> /\ pcl = <<>>
+\* ---------------------------------------------------------------- preludes
+\* Breadth-first exploration reaches every state, but only up to the depth it can afford.  Some heaps
+\* that matter lie deep (a dead shell needs a whole cycle; three objects are needed for "the holder is not
+\* yet traced while the adopter is black").  A prelude is a scripted operation sequence, interpreted with
+\* the same operators, after which the exhaustive exploration starts; the emitted behaviours begin with it.
+Ord == CHOOSE f \in [1..Cardinality(Obj) -> Obj] : \A i, j \in 1..Cardinality(Obj) : i # j => f[i] # f[j]
+ApplyOp(s, op) ==
+  CASE op.op = "alloc_root"  -> AllocRoot(s, op.o, op.k)
+    [] op.op = "alloc_into"  -> AllocInto(s, op.o, op.k, op.p, op.path)
+    [] op.op = "link"        -> Link(s, op.p, op.c, op.path)
+    [] op.op = "unlink"      -> Unlink(s, op.p, op.c, op.path)
+    [] op.op = "wlink"       -> WLink(s, op.p, op.t, op.path)
+    [] op.op = "wunlink"     -> WUnlink(s, op.p, op.t, op.path)
+    [] op.op = "root_remove" -> RootRemove(s, op.c)
+    [] op.op = "root_wadd"   -> RootWAdd(s, op.t)
+    [] op.op = "call"        -> Call(s, op.kind, op.b, op.g, op.cont)
+RECURSIVE ApplyAll(_, _, _)
+ApplyAll(s, ops, i) == IF i > Len(ops) THEN s ELSE ApplyAll(ApplyOp(s, ops[i]), ops, i + 1)
+FC == [op |-> "call", kind |-> "finish_cycle", b |-> 0, g |-> "P1", cont |-> FALSE]
+PreludeOps ==
+  CASE Prelude = "" -> <<>>
+    \* two rooted nodes x1, x2; x3 is the DEAD SHELL of a destructed value, weakly held by x1 only
+    [] Prelude = "shell" ->
+         LET x1 == Ord[1]  x2 == Ord[2]  x3 == Ord[3] IN
+         << [op |-> "alloc_root", o |-> x1, k |-> "N", via |-> "mutate_root"],
+            [op |-> "alloc_root", o |-> x2, k |-> "N", via |-> "mutate_root"],
+            [op |-> "alloc_into", o |-> x3, k |-> "N", p |-> x2, path |-> "borrow_mut"],
+            [op |-> "wlink", p |-> x1, t |-> x3, path |-> "borrow_mut"],
+            [op |-> "unlink", p |-> x2, c |-> x3, path |-> "borrow_mut"],
+            FC >>
+    \* the same heap one cycle earlier: x3 is weakly held garbage that is still alive (condemned at the next sweep)
+    [] Prelude = "weakgarbage" ->
+         LET x1 == Ord[1]  x2 == Ord[2]  x3 == Ord[3] IN
+         << [op |-> "alloc_root", o |-> x1, k |-> "N", via |-> "mutate_root"],
+            [op |-> "alloc_root", o |-> x2, k |-> "N", via |-> "mutate_root"],
+            [op |-> "alloc_into", o |-> x3, k |-> "N", p |-> x2, path |-> "borrow_mut"],
+            [op |-> "wlink", p |-> x1, t |-> x3, path |-> "borrow_mut"],
+            FC,
+            [op |-> "unlink", p |-> x2, c |-> x3, path |-> "borrow_mut"] >>
+    \* a rooted chain x1 -> x2 -> x3 that has survived a cycle
+    [] Prelude = "chain" ->
+         LET x1 == Ord[1]  x2 == Ord[2]  x3 == Ord[3] IN
+         << [op |-> "alloc_root", o |-> x1, k |-> "N", via |-> "mutate_root"],
+            [op |-> "alloc_into", o |-> x2, k |-> "N", p |-> x1, path |-> "borrow_mut"],
+            [op |-> "alloc_into", o |-> x3, k |-> "N", p |-> x2, path |-> "borrow_mut"],
+            FC >>
+
+Init == h = ApplyAll(EmptyHeap, PreludeOps, 1) /\ hist = PreludeOps /\ pcl = <<>>
 
 \* ---------------------------------------------------------------- helpers used by the emitters
 RECURSIVE Chain(_, _, _)
@@ -142,6 +190,16 @@ UpgradeStoreA ==
     /\ HasRoom(h, p) \/ h.kind[p] = "L"
     /\ \E path \in StrongPaths(h.kind[p]) :
          Do(UpgradeStore(h, e[2], p, path), [op |-> "upgrade_store", h |-> e[1], t |-> e[2], p |-> p, path |-> path])
+
+\* Copy a weak pointer out of an accessible holder into another object WITHOUT upgrading it: the target
+\* need not be accessible (a condemned value during Sweep, the dead shell of a destructed one).  With a
+\* following wunlink this is "moving" a GcWeak.  (Accessible targets: WLinkA.)
+WCopyA ==
+  \E e \in WeakEdges(h), p \in Hd :
+    /\ e[2] \notin A /\ e[2] \notin h.weak[p]
+    /\ HasWeakRoom(h, p) \/ h.kind[p] = "L"
+    /\ \E path \in WeakPaths(h.kind[p]) :
+         Do(WLink(h, p, e[2], path), [op |-> "wcopy", h |-> e[1], t |-> e[2], p |-> p, path |-> path])
 
 \* one parent-only backward barrier, then several adoptions in the same callback
 LinkManyA ==
@@ -269,7 +327,7 @@ DropArenaA == WithDrop /\ Do(DropAll(h), [op |-> "drop_arena"])
 
 Mutator == \/ AllocRootA \/ AllocIntoA \/ AllocTempA \/ LinkA \/ RootRemoveA
            \/ (WithUnlink /\ (UnlinkA \/ RootAddA))
-           \/ (WithWeak /\ (WLinkA \/ WUnlinkA \/ RootWAddA \/ RootWRemoveA \/ UpgradeStoreA))
+           \/ (WithWeak /\ (WLinkA \/ WUnlinkA \/ RootWAddA \/ RootWRemoveA \/ UpgradeStoreA \/ WCopyA))
            \/ BarrierOnlyA \/ LinkManyA \/ LinkByManyA \/ PanicCbA \/ LeakA
 Collector == CallA \/ StartSweepingA \/ FinalizeA \/ CallFaultA \/ CallDFaultA
 
